@@ -163,6 +163,17 @@ type sketchWorld struct {
 }
 
 func (w *sketchWorld) provider(slot int) store.Provider {
+	if in := w.cfg.Init[slot]; in.Pos.Kind == "exact" && in.Neg.Kind == "exact" && w.cfg.PosReal[slot] == w.cfg.NegReal[slot] {
+		// the library's own providers where the configuration is one of them
+		switch w.cfg.PosReal[slot] {
+		case "dense":
+			return store.DenseStoreConstructor
+		case "sparse":
+			return store.SparseStoreConstructor
+		case "paged":
+			return store.DefaultProvider
+		}
+	}
 	n := 0
 	return func() store.Store {
 		n++
@@ -445,9 +456,16 @@ func (w *sketchWorld) apply(e *SkEvent) (errClass string, problem string) {
 			}
 		}
 		slot := e.T - 1
-		d, err := ddsketch.FromProtoWithStoreProvider(msg, w.provider(slot))
+		var d *ddsketch.DDSketch
+		var err error
+		in := cfg.Init[slot]
+		if in.Pos.Kind == "exact" && in.Neg.Kind == "exact" && cfg.PosReal[slot] == "dense" && cfg.NegReal[slot] == "dense" {
+			d, err = ddsketch.FromProto(msg) // the library's default target: dense stores
+		} else {
+			d, err = ddsketch.FromProtoWithStoreProvider(msg, w.provider(slot))
+		}
 		if err != nil {
-			return "", "FromProtoWithStoreProvider: " + err.Error()
+			return "", "FromProto / FromProtoWithStoreProvider: " + err.Error()
 		}
 		w.sk[slot] = &realSketch{plain: d, m: s.m}
 		if p := sameMapping(d.IndexMapping, s.base().IndexMapping); p != "" {
